@@ -1,1 +1,169 @@
-/-! Property theorems for C20 (stub: none yet). -/
+import TxdbusModel.Proofs.Proto.FdsRun
+/-!
+# C20 - file descriptors stay attached to the message that carried them
+
+Code model: Proto/Fds.lean (sender: `marshalBV` = `marshal_unix_fd` over a body tree, `marshalMsg` =
+the `unix_fds` rule of `_marshal`, `sendMessage`, `callRemote`; receiver: `recvEv` =
+`fileDescriptorReceived` / `dataReceived` + `rawDBusMessageReceived`, on top of the framing model of
+C04).  Environment model: `Consistent ms evs` (Proto/Fds.lean) - what a stream socket may do.
+
+Definitions used in the statements (Proofs/Proto/FdsLemmas.lean, FdsRun.lean):
+`MsgOK info m` - the abstract parser finds in `m.raw` the index values `m.idx`, a `unix_fds` header equal
+to the number of descriptors sent with `m` (absent when there are none), and every index refers to one
+of the message's own descriptors (what `sender_layout` guarantees for txdbus's own sender);
+`GoodFrom ms ds` - `ds` are deliveries of the first messages of `ms`, in order, each with every `h`
+argument resolved to the descriptor sent at that position with that very message, the queue at that
+moment being the message's own descriptors followed by early arrivals of later messages, and exactly
+the message's own descriptors removed afterwards.
+-/
+namespace Txdbus.Proto
+
+variable {α : Type}
+
+/-- **C20.1**  `callRemote` (a fresh out-of-band list per call) for an arbitrary body: the
+out-of-band list is the descriptor arguments in argument order, the index values written are
+`0 .. k-1` in argument order, the `unix_fds` header is `k` (absent iff there are no descriptors), and the
+transport sees one `sendFileDescriptor` per descriptor, in argument order, all before the one `write`. -/
+theorem sender_layout (body : List BV) :
+    (callRemote true body).1.oob = fdLeavesL body ∧
+    (callRemote true body).1.indices = List.range (fdLeavesL body).length ∧
+    (callRemote true body).1.header =
+      (if (fdLeavesL body).isEmpty then none else some (fdLeavesL body).length) ∧
+    (callRemote true body).2 = (fdLeavesL body).map SendEv.sendFd ++ [SendEv.write] := by
+  simp [callRemote, marshalMsg, sendMessage, marshalBVs_spec, List.range_eq_range']
+
+/-- C20.1 for a caller-supplied list that already holds `oob0` (direct construction of a
+`MethodCallMessage`): indices continue after the entries already present, the header counts all
+entries, and all of them are sent ahead of the bytes. -/
+theorem sender_layout_general (body : List BV) (oob0 : List Nat) :
+    (marshalMsg true body oob0).oob = oob0 ++ fdLeavesL body ∧
+    (marshalMsg true body oob0).indices = List.range' oob0.length (fdLeavesL body).length ∧
+    (marshalMsg true body oob0).header =
+      (if (oob0 ++ fdLeavesL body).isEmpty then none else some (oob0.length + (fdLeavesL body).length)) ∧
+    sendMessage (marshalMsg true body oob0) = (oob0 ++ fdLeavesL body).map SendEv.sendFd ++ [SendEv.write] := by
+  simp [marshalMsg, sendMessage, marshalBVs_spec]
+
+/-- A message without a signature marshals no body: no index, no header, nothing but the bytes is sent
+by `callRemote`. -/
+theorem sender_no_signature (body : List BV) :
+    callRemote false body = (⟨none, [], []⟩, [SendEv.write]) := by
+  simp [callRemote, marshalMsg, sendMessage]
+
+/-- With the sender's layout (`idx = 0 .. k-1`) every descriptor argument resolves, in order, to the
+message's descriptors. -/
+theorem resolved_all (m : Msg) (h : m.idx = List.range m.fds.length) :
+    m.idx.map (fun j => m.fds[j]?) = m.fds.map some := by
+  rw [h]
+  apply List.ext_getElem?
+  intro i
+  simp only [List.getElem?_map]
+  by_cases hi : i < m.fds.length
+  · simp [hi]
+  · simp [hi]
+
+/-- **C20.2**  For every sequence of messages `ms` (well-formed for framing; parsed consistently with
+what was sent, `MsgOK`), every event sequence `evs` a stream socket can produce for them (`Consistent`:
+bytes in order cut arbitrarily into reads, descriptors in sending order, those of message `i` no later
+than the read containing its last byte - possibly long before, while earlier messages are incomplete),
+a receiver starting in binary mode with empty buffer and empty queue:
+
+* delivers the messages in order, each with every `h` argument resolved to the descriptor sent at that
+  position with that very message; at that moment the queue is `fds(i) ++ early arrivals of later
+  messages`, and exactly `|fds(i)|` entries are removed (`GoodFrom`);
+* has delivered every complete message (the buffer holds no complete message; bytes seen = bytes of the
+  delivered messages ++ buffer);
+* keeps exactly the descriptors of undelivered messages queued. -/
+theorem attribution (A : Auth α) (info : Bytes → MsgInfo) (ms : List Msg) (evs : List Ev) (s : St α)
+    (hok : ∀ m ∈ ms, Spec.WellFormed m.raw ∧ MsgOK info m)
+    (hc : Consistent ms evs)
+    (hs : s.authenticated = true) (hbuf : s.buffer = []) (hnext : s.nextMsgLen = 0) :
+    GoodFrom ms (recvRun A info ⟨s, []⟩ evs).2 ∧
+    bytesOf evs = bytesUpTo ms (recvRun A info ⟨s, []⟩ evs).2.length ++ (recvRun A info ⟨s, []⟩ evs).1.st.buffer ∧
+    ¬ Spec.hasFrame (recvRun A info ⟨s, []⟩ evs).1.st.buffer ∧
+    fdsOf evs = fdsUpTo ms (recvRun A info ⟨s, []⟩ evs).2.length ++ (recvRun A info ⟨s, []⟩ evs).1.queue := by
+  have inv0 : Inv ms (⟨s, []⟩ : Recv α) [] 0 := by
+    refine ⟨Nat.zero_le _, ?_, ?_, ?_, hs⟩
+    · simp [bytesOf, bytesUpTo, hbuf]
+    · simp [fdsOf, fdsUpTo]
+    · refine Or.inl ⟨hnext, ?_⟩
+      show s.buffer.length < 16
+      rw [hbuf]; decide
+  obtain ⟨k', _, inv', hlen, hgood⟩ := recv_run_inv A info ms hok evs [] ⟨s, []⟩ 0 (by simpa using hc) inv0
+  simp only [Nat.sub_zero, List.drop_zero, List.nil_append] at hlen hgood inv'
+  rw [hlen]
+  exact ⟨hgood, inv'.hbytes, framed_noFrame _ inv'.hframed, inv'.hfds⟩
+
+/-! ## Boundary of the claim (outside the property: a sender that does not follow `sender_layout`) -/
+
+/-- A message that declares no descriptors but carries an `h` argument with index 0 reads the
+descriptor of a LATER message that arrived early, and leaves it queued (`unmarshal_unix_fd` indexes the
+whole queue, not the declared part).  txdbus's own sender never produces such a message. -/
+theorem index_beyond_declared_reaches_later_message :
+    deliver (fun _ => ⟨none, [0]⟩) [7] [] = ([7], ⟨[], [some 7], [7], [7]⟩) := by
+  decide
+
+/-! ## The hypotheses are satisfiable -/
+
+/-- a 16-byte message sent with descriptor 5, its body index 0 (abstractly) -/
+example : Consistent [⟨tinyMsg16, [5], [0]⟩] [.fd 5, .read tinyMsg16] ∧
+    Consistent [⟨tinyMsg16, [5], [0]⟩] [.read (tinyMsg16.take 3), .fd 5, .read (tinyMsg16.drop 3)] := by
+  refine ⟨⟨by decide, by decide, ?_⟩, ⟨by decide, by decide, ?_⟩⟩
+  · intro p hp k hk hle
+    have hk' : k = 0 ∨ k = 1 := by simp at hk; omega
+    rcases hk' with rfl | rfl
+    · simp [fdsUpTo]
+    · rcases p with _ | ⟨e1, _ | ⟨e2, _ | ⟨e3, p⟩⟩⟩
+      · simp [bytesOf, bytesUpTo, tinyMsg16] at hle
+      · obtain ⟨t, ht⟩ := hp
+        simp at ht
+        obtain ⟨rfl, _⟩ := ht
+        simp [bytesOf, bytesUpTo, tinyMsg16] at hle
+      · obtain ⟨t, ht⟩ := hp
+        simp at ht
+        obtain ⟨rfl, rfl, _⟩ := ht
+        simp [fdsOf, fdsUpTo]
+      · obtain ⟨t, ht⟩ := hp
+        simp at ht
+  · intro p hp k hk hle
+    have hk' : k = 0 ∨ k = 1 := by simp at hk; omega
+    rcases hk' with rfl | rfl
+    · simp [fdsUpTo]
+    · rcases p with _ | ⟨e1, _ | ⟨e2, _ | ⟨e3, _ | ⟨e4, p⟩⟩⟩⟩
+      · simp [bytesOf, bytesUpTo, tinyMsg16] at hle
+      · obtain ⟨t, ht⟩ := hp
+        simp at ht
+        obtain ⟨rfl, _⟩ := ht
+        simp [bytesOf, bytesUpTo, tinyMsg16] at hle
+      · obtain ⟨t, ht⟩ := hp
+        simp at ht
+        obtain ⟨rfl, rfl, _⟩ := ht
+        simp [fdsOf, fdsUpTo]
+      · obtain ⟨t, ht⟩ := hp
+        simp at ht
+        obtain ⟨rfl, rfl, rfl, _⟩ := ht
+        simp [fdsOf, fdsUpTo]
+      · obtain ⟨t, ht⟩ := hp
+        simp at ht
+
+example : Spec.WellFormed tinyMsg16 ∧
+    MsgOK (fun _ => ⟨some 1, [0]⟩) ⟨tinyMsg16, [5], [0]⟩ := by
+  refine ⟨by decide, rfl, Or.inl rfl, ?_⟩
+  intro j hj
+  simp at hj
+  subst hj
+  decide
+
+end Txdbus.Proto
+
+open Txdbus.Proto in
+#print axioms sender_layout
+open Txdbus.Proto in
+#print axioms sender_layout_general
+open Txdbus.Proto in
+#print axioms sender_no_signature
+open Txdbus.Proto in
+#print axioms resolved_all
+open Txdbus.Proto in
+#print axioms attribution
+open Txdbus.Proto in
+#print axioms index_beyond_declared_reaches_later_message
